@@ -161,3 +161,37 @@ Proof.
       now rewrite H.
     + destruct (d_get rest k'); reflexivity.
 Qed.
+
+(* ---- c_i.update(c_j) between two different caches ----------------------------------------- *)
+(* the source keeps its contents, every one of its items counts one hit on it,
+   its other counters and the target's counters do not move, both stay well formed *)
+Lemma upd_from_effect c ks : forall mi mj,
+  1 <= c_max c -> Inv c mi -> Inv c mj -> Forall (fun k => In k (keys (ring mj))) ks ->
+  exists mi' mj', upd_from c mi mj ks = (mi', mj', Ok tt) /\ Inv c mi' /\ Inv c mj'
+    /\ map_eq (store mj') (store mj)
+    /\ hit mj' = (hit mj + N.of_nat (length ks))%N /\ miss mj' = miss mj /\ soft mj' = soft mj
+    /\ hit mi' = hit mi /\ miss mi' = miss mi /\ soft mi' = soft mi.
+Proof.
+  induction ks as [|k rest IH]; intros mi mj Hmax Ii Ij F.
+  - exists mi, mj. simpl. rewrite N.add_0_r.
+    split; [reflexivity|]. split; [assumption|]. split; [assumption|].
+    split; [intro; reflexivity|]. repeat split; reflexivity.
+  - inversion F as [|? ? Hk Fr]; subst. simpl upd_from.
+    destruct (getitem_present c mj k Hmax Ij Hk) as [mj1 [v [Eg [Ij1 [L [_ KS]]]]]]. rewrite Eg.
+    destruct (setitem_sim c mi k v Hmax Ii) as [mi1 [Es [Ii1 [A [_ [H1 [M1 S1]]]]]]]. rewrite Es.
+    assert (Fr' : Forall (fun k0 => In k0 (keys (ring mj1))) rest).
+    { eapply Forall_impl; [|exact Fr]. intros a Ha. now apply KS. }
+    destruct (IH mi1 mj1 Hmax Ii1 Ij1 Fr') as [mi' [mj' [E [I1 [I2 [ME [HJ [MJ [SJ [HI [MI SI]]]]]]]]]]].
+    exists mi', mj'. split; [exact E|]. split; [exact I1|]. split; [exact I2|].
+    pose proof Ij as [NRj NSj SAMEj _ _ _]. pose proof Ij1 as [NRj1 NSj1 SAMEj1 _ _ _].
+    assert (G : exists v0, d_get (ring mj) k = Some v0).
+    { apply d_mem_iff in Hk. unfold d_mem in Hk. destruct (d_get (ring mj) k); [eauto|discriminate]. }
+    destruct G as [v0 G].
+    unfold r_lookup in L. simpl in L. rewrite G in L. inversion L as [[A1 A2 A3 A4 A5 A6]].
+    assert (ME1 : map_eq (store mj1) (store mj)).
+    { intro k'. rewrite SAMEj1, SAMEj, <- A1. destruct (c_cls c); [reflexivity|].
+      now apply d_get_move_end. }
+    split. { intro k'. rewrite ME. apply ME1. }
+    split. { rewrite HJ, <- A2. simpl length. lia. }
+    split; [congruence|]. split; [congruence|]. split; [congruence|]. split; congruence.
+Qed.
